@@ -144,7 +144,11 @@ Obs(ev) == LET r == RefStep(SC, h, ev) IN h' = r.h /\ viol' = viol \cup Clauses(
 InitPmem(s) ==
   {Inp(C(i).de, C(i).da, C(i).src, C(i).se, IF C(i).init # "" THEN C(i).init ELSE "None") :
      i \in {i \in CI : C(i).dst = s /\ C(i).data /\ ~Pulled(i) /\ ((C(i).pers /\ ~SC.cache) \/ C(i).init # "")}}
-InitCacheV(s) == {<<0 - C(i).shift, C(i).se, C(i).sa, C(i).init>> :
+\* connect(): pulled initial data is written into EVERY cache entry it is valid for, -shift .. -1
+\* (0 for a weak connection) -- entries in between exist when another connection from the same
+\* simulator has a smaller shift (repair of D14; before it only the entry -shift was written)
+InitTimes(i) == IF C(i).shift = 0 THEN {0} ELSE (0 - C(i).shift)..(-1)
+InitCacheV(s) == UNION {{<<t, C(i).se, C(i).sa, C(i).init>> : t \in InitTimes(i)} :
                     i \in {i \in CI : C(i).src = s /\ Pulled(i) /\ C(i).init # ""}}
 
 Init ==
